@@ -307,6 +307,11 @@ func (c *Chunk) ReadFrom(r io.Reader) (int64, error) {
 	}
 
 	bitsForHeight := bits.Len( /* chunk height in blocks */ uint(len(c.Sections))*16 + 1)
+	// NewBitStorage panics on data of the wrong length; the height maps come from the peer
+	if want := calcBitStorageSize(bitsForHeight, 16*16); (heightmaps.MotionBlocking != nil && len(heightmaps.MotionBlocking) != want) ||
+		(heightmaps.WorldSurface != nil && len(heightmaps.WorldSurface) != want) {
+		return n, errors.New("level: height map of the wrong length")
+	}
 	c.HeightMaps.MotionBlocking = NewBitStorage(bitsForHeight, 16*16, heightmaps.MotionBlocking)
 	c.HeightMaps.WorldSurface = NewBitStorage(bitsForHeight, 16*16, heightmaps.WorldSurface)
 
